@@ -12,6 +12,23 @@ def main(run):
                 'prefix of b with a dict re-ordering, or a near-miss (not a prefix although the root kinds match)')
     bounds = [('PA', 4, 2, 2), ('PB', 3, 2, 2)] if quick else [('PA', 5, 2, 2), ('PB', 4, 2, 2)]
     rng = random.Random(run.seed)
+    # layer M: the engine's array walk with sibling re-ordering in a working copy (PrefixM.tla) refines SpecPrefix ...
+    from harness.checks import treecfg
+    from harness import tla
+    treecfg.ALPHABETS['PM'] = ('MC_PrefixM', ['tuple', 'dict', 'odict'], [1], [0], [0])
+    for n, flag in ((4 if quick else 6, 'FALSE'), (6, 'TRUE')):
+        mod, cfg = treecfg.cfg('PM', n, 2, 2, ['PInvPrefixM'], ns=('',))
+        cfg = cfg.replace('SPECIFICATION Spec', 'SPECIFICATION PSpec').replace('CONSTANTS', 'CONSTANTS\n  CopyFromOriginal = ' + flag)
+        r = run.tlc(f'prefixM-{flag}', mod, cfg, timeout=3000)
+        if flag == 'FALSE' and r.violated:
+            bad = tla.prints(r.out, 'BADPAIR')
+            run.violation({'kind': 'model', 'invariant': r.violated, 'pair': [P.F.thaw(bad[0][2]), P.F.thaw(bad[0][3])] if bad else None},
+                          'TLC: the code-shaped prefix walk (PrefixM) does not refine SpecPrefix')
+        if flag == 'TRUE':
+            # ... and the as-found variant (copying the permuted subtrees from the original array) must be refuted (vacuity guard)
+            run.extra['as_found_prefix_walk_refuted_by_TLC'] = r.violated
+            if r.violated != 'PInvPrefixM':
+                run.machinery('vacuity guard: PrefixM with CopyFromOriginal=TRUE should violate PInvPrefixM')
     pairs = P.pair_model_phase(run, bounds, ['PInvC07'])
     if len(pairs) > (6000 if quick else 250000):
         rng.shuffle(pairs)
